@@ -104,7 +104,31 @@ def gen_source_case(rng, noisy=False, d25=False, big_ok=True):
         case['noise_seed'] = int(rng.integers(0, 2 ** 31))
     if d25:
         case['snr_forced'] = 1000.0
+    elif not noisy:
+        # the forced rms sets how much of the source is inside the island (flood = 4 rms): from a thin core to the far wings
+        case['snr_forced'] = float(10 ** rng.uniform(np.log10(10.0), np.log10(300.0)))
     return case
+
+
+def gen_aligned_case(rng):
+    """elongated source along a pixel axis, beam elongated across it, island reduced to a sliver by the forced rms:
+    the corner of parameter space where the fitted sx/sy swap roles and island-size dependent bounds bite"""
+    c = gen_source_case(rng)
+    c['flip_dec'] = False
+    bmaj = c['beam'][0]
+    c['beam'][1] = bmaj * float(rng.uniform(0.55, 0.8))
+    pa = float(rng.choice([0.0, 90.0])) + float(rng.uniform(-20, 20))
+    pa = pa - 180 if pa > 90 else pa
+    c['src']['pa'] = pa
+    c['beam'][2] = float(pa + 90 + rng.uniform(-10, 10))
+    if c['beam'][2] > 90:
+        c['beam'][2] -= 180
+    b = bmaj * 3600 * float(rng.uniform(1.0, 1.3))
+    c['src']['b'] = b
+    c['src']['a'] = min(b * float(rng.uniform(2.0, 3.0)), 11.0 * c['scale'] * 3600 * 1.6)
+    c['snr_forced'] = float(10 ** rng.uniform(1.0, np.log10(60.0)))
+    c['stratum'] = 'aligned'
+    return c
 
 
 def cases(seed, tier):
@@ -114,6 +138,11 @@ def cases(seed, tier):
     for i in range(n_nf):
         c = gen_source_case(rng)
         c.update(kind='nf', via='cli' if i % 8 == 7 else 'api')
+        out.append(c)
+    n_al = 32 if tier == 'quick' else 400
+    for i in range(n_al):
+        c = gen_aligned_case(rng)
+        c.update(kind='nf', via='api')
         out.append(c)
     n_d25 = 6 if tier == 'quick' else 60
     for i in range(n_d25):
